@@ -196,6 +196,21 @@ theorem convert_round_trip_text (rp : Bool) (c c' : CreateTable)
   obtain ⟨hive, h1, h2⟩ := hive_round_trip_text c' hf' hl' hq
   exact ⟨my, hive, m1, m4, h1, h2⟩
 
+/-- the Hive half for ANY table `c` (however it was obtained — e.g. parsed from any MySQL text, not only from the canonical print):
+convert with the shipped map, print for Hive, parse that TEXT as Hive: the schema view of the result is the mapped view of `c`.
+Hypotheses only on the converted table (decidable: `hiveOK c'` via `fragHive_of_conv`, `leafCB`, `noEqCB`) -/
+theorem schema_preserved_hive_text (rp : Bool) (c c' : CreateTable) (h : changeTypeT Gen.mysqlToHive rp c = .ok c')
+    (hf' : FragCreate .HIVE (hiveProj c') = true) (hl' : LeafC .HIVE (hiveProj c')) (hq : NoEqC (hiveProj c')) :
+    ∃ (hive : String) (p : CreateTable) (cols : List ColView),
+      PR.prStmt .HIVE (.createTable c') = .ok hive ∧ parseStatementsText .HIVE hive.toList = .ok [.createTable p] ∧
+      mapCols Gen.mysqlToHive rp (view c).cols = some cols ∧
+      view p = ⟨(view c).schema, (view c).table, cols.map ColView.hive, (view c).parts.map ColView.hive, (view c).comment⟩ := by
+  obtain ⟨hive, h1, h2⟩ := hive_round_trip_text c' hf' hl' hq
+  obtain ⟨v1, v2, v3, v4, v5⟩ := C18.changeTypeT_view Gen.mysqlToHive rp c c' h
+  refine ⟨hive, hiveProj c', (view c').cols, h1, h2, v1, ?_⟩
+  rw [view_hiveProj, ← v2, ← v3, ← v4, ← v5]
+  rfl
+
 /-- **C18.schema_preserved_text**: parse a MySQL CREATE TABLE text → convert with `HASHMAP_MYSQL_TO_HIVE` → print for Hive → parse that
 text as Hive: the parsed table declares the schema, the table name, the column names in order, the comments, the types mapped by the
 shipped map with parameters only where Hive has them, the partition columns and the table comment of the MySQL table. -/
